@@ -250,8 +250,68 @@ func (c *Ctx) messageNonEmpty(format ssa.Value, args ssa.Value) (bool, string) {
 		}
 		return false, "format from a table without its found flag: a missing key gives the empty format"
 	}
+	// a field of a struct-valued table entry (`m, ok := table[k]; ...; Message(m.format, ...)`)
+	if tab, _, isOK, field := tableLookup(c.P, format); tab != nil && !isOK && field != "" {
+		for _, e := range tab.entries {
+			f, ok := constString(e.fields[field])
+			if !ok || !nonEmptyFormat(f) {
+				return false, "an entry of the format table " + tab.g.Name() + " may render empty"
+			}
+		}
+		if fieldOfLookupGuardedByOK(format) {
+			return true, fmt.Sprintf("format from field %s of the read-only table %s (%d non-empty formats), used only when the key was found", field, tab.g.Name(), len(tab.entries))
+		}
+		return false, "format from a table without its found flag: a missing key gives the empty format"
+	}
 	return false, "format is not a constant"
 }
+
+// fieldOfLookupGuardedByOK: v is a field of the struct value of a comma-ok lookup (possibly copied into a local), and
+// every use of v lies under the ok flag of that lookup being true.
+func fieldOfLookupGuardedByOK(v ssa.Value) bool {
+	var ex *ssa.Extract
+	switch x := unspillOnce(stripChange(v)).(type) {
+	case *ssa.Field:
+		ex, _ = stripChange(x.X).(*ssa.Extract)
+	case *ssa.UnOp:
+		if fa, ok := x.X.(*ssa.FieldAddr); ok {
+			if al, ok := fa.X.(*ssa.Alloc); ok {
+				if sts := storesTo(al); len(sts) == 1 {
+					ex, _ = stripChange(sts[0]).(*ssa.Extract)
+				}
+			}
+		}
+	}
+	if ex == nil || ex.Index != 0 {
+		return false
+	}
+	var okFlag ssa.Value
+	for _, ref := range *ex.Tuple.Referrers() {
+		if e2, ok := ref.(*ssa.Extract); ok && e2.Index == 1 {
+			okFlag = e2
+		}
+	}
+	if okFlag == nil || v.Referrers() == nil {
+		return false
+	}
+	for _, ref := range *v.Referrers() {
+		if _, isDbg := ref.(*ssa.DebugRef); isDbg {
+			continue
+		}
+		guarded := false
+		for _, cd := range condsAt(ref.Block()) {
+			if cd.V == okFlag && cd.True {
+				guarded = true
+			}
+		}
+		if !guarded {
+			return false
+		}
+	}
+	return true
+}
+
+func unspillOnce(v ssa.Value) ssa.Value { return v }
 
 // lookupGuardedByOK: v is the value of a comma-ok lookup and every use of it lies under the ok flag being true.
 func lookupGuardedByOK(v ssa.Value) bool {
@@ -802,7 +862,21 @@ func runC20(c *Ctx) {
 			r4.AnchorLost("ast.(*Path).UnmarshalJSON")
 		} else {
 			got := map[string]string{}
+			// the decoder and the helpers of its package it hands single elements to
+			umFns := []*ssa.Function{um}
 			allInstrs(um, func(in ssa.Instruction) {
+				if ci, ok := in.(ssa.CallInstruction); ok {
+					if h := ci.Common().StaticCallee(); h != nil && h.Pkg == um.Pkg && len(h.Blocks) > 0 && h != um {
+						umFns = append(umFns, h)
+					}
+				}
+			})
+			allInstrsOf := func(f func(in ssa.Instruction)) {
+				for _, uf := range umFns {
+					allInstrs(uf, f)
+				}
+			}
+			allInstrsOf(func(in ssa.Instruction) {
 				ta, ok := in.(*ssa.TypeAssert)
 				if !ok {
 					return
@@ -838,7 +912,7 @@ func runC20(c *Ctx) {
 				visit(val, 0)
 			})
 			// every element created under a type-switch arm has the kind that arm's JSON type stands for
-			allInstrs(um, func(in ssa.Instruction) {
+			allInstrsOf(func(in ssa.Instruction) {
 				mi, ok := in.(*ssa.MakeInterface)
 				if !ok {
 					return
